@@ -1,5 +1,9 @@
 """C13 — tokenized BASIC output is a well-formed MO5 program with the right token codes."""
-from common import drv
+import glob
+import os
+import shutil
+
+from common import drv, hx, uncps, REPO
 import baslib as B
 
 LEVEL_TEXT = ("Lean theorems (Props/C13.lean): the tool's token table equals the pinned MO5 table, codes are >= 0x80 and injective, "
@@ -8,7 +12,7 @@ LEVEL_TEXT = ("Lean theorems (Props/C13.lean): the tool's token table equals the
               "parsed by the Lean structure decoder and compared with the Lean reference encoder on delimited lines.")
 
 # " =", ":-", "(+", ",<": an operator met with nothing pending stays pending in front of the next word
-SEPS = [" ", ":", ",", "(", ")", ".", "=", "+", "-", "*", "/", "<", ">", "^", "  ", " : ", " =", ":-", "(+", ",<", "=-"]
+SEPS = [" ", ":", ",", "(", ")", ".", "=", "+", "-", "*", "/", "<", ">", "^", "  ", " : ", " =", ":-", "(+", ",<", "=-", ";", "; ", ";-"]
 IDENTS = ["A", "B1", "X$", "ZZ", "K9", "Q", "YY$", "W2", "H", "J7", "C%", "V"]
 
 
@@ -36,12 +40,98 @@ def gen_line(rng, kws, n):
     return f"{n}{sp}{body}"
 
 
+def real_programs(ctx, res):
+    """the tokenized programs saved by a real MO5 that the repository bundles (tests/data/*.BAS, the files of the sample disk
+    and of the sample tape): every token code they use is in the table, and every line without a comment or DATA statement,
+    decoded to text by the Lean decoder, is tokenized by the tool to the very bytes the machine wrote"""
+    import disklib as D
+    import tapelib as T
+    st = res.stream("real_programs")
+    w = ctx.fresh_dir()
+    data = os.path.join(REPO, "tests", "data")
+    files = sorted(glob.glob(os.path.join(data, "*.BAS")))
+    fd = os.path.join(data, "10_lsystem_mo5__2023-10-14.fd")
+    k7 = os.path.join(data, "sporny-basic.k7")
+    if os.path.exists(fd):
+        shutil.copy(fd, os.path.join(w, "d.fd"))
+        D.dar("fd", ["-x", "--into", "out", "d.fd"], cwd=w)
+        files += sorted(glob.glob(os.path.join(w, "out", "side*", "*")))
+    if os.path.exists(k7):
+        shutil.copy(k7, os.path.join(w, "t.k7"))
+        T.tar(["-x", "--into", "outk", "t.k7"], cwd=w)
+        files += sorted(glob.glob(os.path.join(w, "outk", "*")))
+    seen = set()
+    for f in files:
+        b = open(f, "rb").read()
+        if not b or b[0] != 0xFF or b in seen:
+            continue
+        seen.add(b)
+        # lenient reading of the records (a saved program keeps the links of the address it was saved from), re-linked from
+        # the MO5 base so that the strict structure decoder reads it
+        recs0 = []
+        i = 3
+        while i + 4 <= len(b) and (b[i] or b[i + 1]):
+            j = i + 4
+            while j < len(b) and b[j] != 0:
+                j += 1
+            recs0.append((b[i + 2] * 256 + b[i + 3], b[i + 4:j]))
+            i = j + 1
+        body = bytearray()
+        addr = 0x25A4
+        for num, t in recs0:
+            addr += 4 + len(t) + 1
+            body += bytes([addr // 256, addr % 256, num // 256, num % 256]) + t + b"\0"
+        body += b"\0\0"
+        prog = drv([f"bas.program {hx(bytes([0xFF, len(body) // 256, len(body) % 256]) + bytes(body))}"])[0]
+        name = os.path.basename(f)
+        case = {"program": name, "records": len(recs0)}
+        st.see((name, len(b)), nontrivial=len(recs0) > 0)
+        if prog in ("bad", ""):
+            res.violate("real_programs", "a program saved by a real MO5 is not decoded (a token code outside the table?)", case, b[:40].hex(), {"clause": "real_program_decodes"})
+            continue
+        recs = [r.split(":") for r in prog.split(";")]
+        text = "".join(f"{r[0]} {uncps(r[2])}\n" for r in recs)
+        status, bas = B.lst2bas(ctx, text)
+        prog2 = drv([f"bas.program {hx(bas)}"])[0] if (status == "ok0" and bas) else "bad"
+        if prog2 in ("bad", ""):
+            res.violate("real_programs", "the decoded text of a real program is not converted", case, status, {"clause": "real_program_roundtrip"})
+            continue
+        recs2 = [r.split(":") for r in prog2.split(";")]
+        st.compared += 1
+        for r, r2 in zip(recs, recs2):
+            t = bytes.fromhex(r[1]) if all(ch in '0123456789abcdefABCDEF' for ch in r[1]) else b""
+            if 0x8D in t or 0x8C in t or 0x83 in t:      # comment (the machine keeps it raw, the tool tokenizes it: S5) or DATA
+                res.count("real_lines_with_comment_or_data")
+                continue
+            res.count("real_lines_compared")
+            if r[1] != r2[1]:
+                res.violate("real_programs", "a line of a real MO5 program, decoded and tokenized again, gives other bytes than the machine wrote",
+                            dict(case, line=f"{r[0]} {uncps(r[2])}"[:200]), {"machine": r[1][:160], "tool": r2[1][:160]}, {"clause": "real_program_roundtrip"})
+                break
+        if len(recs) != len(recs2):
+            res.violate("real_programs", "record count changed", case, [len(recs), len(recs2)], {"clause": "real_program_roundtrip"})
+
+
+# past failures (F24, F25): words the table misspelled or lacked; the reference (pinned MO5 table) decides
+REGRESSIONS = ["10 A=ABS(B):C=SQR(2)\n20 DEF FNA(X)=X*2\n30 DSKINI 0\n40 PRINT FNA(3);ABS(-1);SQR(4)\n",
+               "10 LET A=1\n20 DEFDBL D:DEFSTR S\n30 X=CVD(A$):B$=MKD$(X)\n40 LET B=CVD(MKD$(1))\n",
+               '10 PRINT "A";CHR$(65);TAB(10);B\n20 IF X THEN PRINT "Y";ELSE PRINT "N";\n30 INPUT "N";A:PRINT;:PRINT A;SPC(2);STR$(A)\n']
+
+
 def run(ctx, res):
+    st0 = res.stream("regressions")
+    for text in REGRESSIONS:
+        status, bas = B.lst2bas(ctx, text)
+        st0.see(text, nontrivial=True)
+        B.check_program(res, "regressions", st0, {"text": text}, text, status, bas, {"structure", "reference"})
+    real_programs(ctx, res)
     res.rule = ("numbered ASCII listings generated from the full keyword vocabulary (every keyword at least 3 times), identifiers that "
                 "contain no keyword, numbers, string literals (unterminated, containing keywords), any spacing, line numbers 1..65535, "
                 "0..n lines; non-trivial = holds a keyword; distinct by text")
     rng = ctx.rng
-    kws = [k for k in B.keywords() if len(k) > 1]
+    # the vocabulary is the tool's table together with the words of the pinned MO5 table that the tool's table once misspelled
+    # or lacked (F24, F25): a table that loses one of them again is still asked about it
+    kws = sorted({k for k in B.keywords() if len(k) > 1} | {"ABS", "SQR", "FN", "DSKINI", "LET", "DEFDBL", "CVD", "MKD$"})
     st = res.stream("vocabulary")
     CL = {"structure", "reference"}
     # every keyword alone, delimited by each separator kind
@@ -49,7 +139,8 @@ def run(ctx, res):
     n = 1
     for k in kws:
         for pre, post in ((" ", ""), (":", ":"), ("(", ")"), (" ", " 1"), ("=", ","), ("", " "),
-                          (" =", ""), (":+", '"x"'), (" -", " "), ("(<", "="), ("=-", ""), ('"s"+', "")):
+                          (" =", ""), (":+", '"x"'), (" -", " "), ("(<", "="), ("=-", ""), ('"s"+', ""),
+                          (";", ""), (";", ";"), ('"s";', '"t"'), (";-", ";")):
             texts.append(f"{n} A{pre}{k}{post}\n" if pre.strip() or pre == " " else f"{n} {k}{post}\n")
             n = n % 65000 + 7
     for i in range(0, len(texts), 40):
